@@ -20,7 +20,7 @@ def focus_set(fams):
 
 
 def exec_cfg(path, *, tabcols="MC_TabCols", colvals="MC_ColVals", rows=2, steps=1, backends=False,
-             level=1, genbad=False, samplek=0, focus=None, invariants=(), emit=False, one_in=1, bdev="NoBDev", properties=()):
+             level=1, genbad=False, samplek=0, focus=None, invariants=(), emit=False, one_in=1, bdev="NoBDev", properties=(), emitsel="all"):
     consts = {
         "NULL": "= NULL",
         "TabCols": "<- " + tabcols,
@@ -36,6 +36,7 @@ def exec_cfg(path, *, tabcols="MC_TabCols", colvals="MC_ColVals", rows=2, steps=
         "Focus": "<- FocusAll" if focus is None else "<- MC_Focus",
         "EmitOneIn": "= %d" % one_in,
         "BDev": "<- " + bdev,
+        "EmitSel": '= "%s"' % emitsel,
     }
     inv = list(invariants) + (["Emit"] if emit else [])
     common.write_cfg(path, constants=consts, invariants=inv, properties=properties)
